@@ -10,12 +10,15 @@ import (
 // C44 — reads through an S3 read replica match the primary.
 
 type vsymBucket struct {
-	objs  map[string][]byte
-	fail  map[string]bool
-	calls []string
+	objs     map[string][]byte
+	fail     map[string]bool
+	calls    []string
+	failList bool
 }
 
-func newVsymBucket() *vsymBucket { return &vsymBucket{objs: map[string][]byte{}, fail: map[string]bool{}} }
+func newVsymBucket() *vsymBucket {
+	return &vsymBucket{objs: map[string][]byte{}, fail: map[string]bool{}}
+}
 
 func (b *vsymBucket) put(key string, body []byte) error {
 	b.calls = append(b.calls, "put:"+key)
@@ -48,16 +51,25 @@ func (b *vsymBucket) get(key string, rng *storage.ByteRange) ([]byte, error) {
 	}
 	return append([]byte(nil), d...), nil
 }
-func (b *vsymBucket) UploadSegment(ctx context.Context, key string, body []byte) error { return b.put(key, body) }
-func (b *vsymBucket) UploadIndex(ctx context.Context, key string, body []byte) error   { return b.put(key, body) }
-func (b *vsymBucket) DeleteSegment(ctx context.Context, key string) error              { return b.del(key) }
-func (b *vsymBucket) DeleteIndex(ctx context.Context, key string) error                { return b.del(key) }
+func (b *vsymBucket) UploadSegment(ctx context.Context, key string, body []byte) error {
+	return b.put(key, body)
+}
+func (b *vsymBucket) UploadIndex(ctx context.Context, key string, body []byte) error {
+	return b.put(key, body)
+}
+func (b *vsymBucket) DeleteSegment(ctx context.Context, key string) error { return b.del(key) }
+func (b *vsymBucket) DeleteIndex(ctx context.Context, key string) error   { return b.del(key) }
 func (b *vsymBucket) DownloadSegment(ctx context.Context, key string, rng *storage.ByteRange) ([]byte, error) {
 	return b.get(key, rng)
 }
-func (b *vsymBucket) DownloadIndex(ctx context.Context, key string) ([]byte, error) { return b.get(key, nil) }
+func (b *vsymBucket) DownloadIndex(ctx context.Context, key string) ([]byte, error) {
+	return b.get(key, nil)
+}
 func (b *vsymBucket) ListSegments(ctx context.Context, prefix string) ([]storage.S3Object, error) {
 	b.calls = append(b.calls, "list:"+prefix)
+	if b.failList {
+		return nil, errors.New("bucket unavailable")
+	}
 	var out []storage.S3Object
 	for k, v := range b.objs {
 		out = append(out, storage.S3Object{Key: k, Size: int64(len(v))})
@@ -73,13 +85,16 @@ func (b *vsymBucket) EnsureBucket(ctx context.Context) error {
 func VsymC44_Read() {
 	ctx := context.Background()
 	primary, replica := newVsymBucket(), newVsymBucket()
-	pstate := vsym_Param("pstate") // 0 primary has the object, 1 primary does not (deleted)
+	pstate := vsym_Param("pstate") // 0 primary has the object, 1 primary does not (deleted), 2 primary has it but the read fails transiently
 	rstate := vsym_Param("rstate")
 	useIndex := vsym_Param("index") == 1
 	ranged := vsym_Param("ranged") == 1
 	data := vsym_Bytes("primary", 3)
-	if pstate == 0 {
+	if pstate == 0 || pstate == 2 {
 		primary.objs["k"] = data
+	}
+	if pstate == 2 {
+		primary.fail["k"] = true
 	}
 	other := vsym_Bytes("replica", 3)
 	switch rstate {
@@ -108,8 +123,24 @@ func VsymC44_Read() {
 	// Known finding: a replica copy whose presence or bytes differ from the primary's is returned unverified.
 	stale := rstate == 3 && !vsym_BytesEq(other, data)
 	phantom := pstate == 1 && (rstate == 2 || rstate == 3)
-	vsym_Known("C44-stale-replica-copy", vsym_Or(stale, phantom))
+	// (a replica that answers while the primary's read fails serves the same bytes only if it is
+	// an exact copy: otherwise the known finding's class)
+	served := pstate == 2 && rstate == 3
+	if pstate == 2 && rstate == 2 {
+		// an exact replica copy may be served although the primary is unreachable
+		exp := data
+		if rng != nil {
+			exp = data[1:3]
+		}
+		vsym_Assert(err != nil || (len(got) == len(exp) && vsym_BytesEq(got, exp)), "C44/read-equals-primary")
+		return
+	}
+	vsym_Known("C44-stale-replica-copy", vsym_Or(stale, vsym_Or(phantom, served)))
 	vsym_Assert((err == nil) == (werr == nil) && (err != nil || vsym_BytesEq(got, want)), "C44/read-equals-primary")
+	if err != nil && werr != nil {
+		// callers distinguish "the object does not exist" from "the store could not be read"
+		vsym_Assert(errors.Is(err, storage.ErrNotFound) == errors.Is(werr, storage.ErrNotFound), "C44/read-error-class-equals-primary")
+	}
 }
 
 func VsymC44_WritesGoToPrimary() {
@@ -127,6 +158,22 @@ func VsymC44_WritesGoToPrimary() {
 	vsym_Reach("writes")
 	vsym_Assert(len(replica.calls) == 0 && len(replica.objs) == 0, "C44/replica-untouched-by-writes")
 	vsym_Assert(len(primary.calls) == 6 && len(primary.objs) == 0, "C44/primary-sees-all-writes")
+}
+
+// listings come from the primary only: a failed primary listing is an error, never the replica's view
+func VsymC44_List() {
+	ctx := context.Background()
+	primary, replica := newVsymBucket(), newVsymBucket()
+	primary.objs["a"], primary.objs["b"] = []byte{1}, []byte{2}
+	replica.objs["a"] = []byte{1} // the replica lags: it lacks the newest object
+	primary.failList = vsym_Bool("primary-listing-fails")
+	objs, err := newDualS3Client(primary, replica).ListSegments(ctx, "")
+	vsym_Reach("listed")
+	if primary.failList {
+		vsym_Assert(err != nil, "C44/failed-primary-listing-is-an-error")
+	} else {
+		vsym_Assert(err == nil && len(objs) == 2, "C44/list-from-primary")
+	}
 }
 
 func VsymC44_Twin() {
